@@ -601,7 +601,8 @@ def gen_C15(c, rng, tier):
         for kind in KINDS:
             for _ in range(scale(tier, 5, 40)):
                 n = rng.choice([1, 2, 3, 4])
-                s0, cl, info = rand_run(rng, fmt, kind, iters=n, calls=[2, 4, 7], finite_only=True, value_classes=['small_int', 'frac', 'neg', 'zero'])
+                s0, cl, info = rand_run(rng, fmt, kind, iters=n, calls=[2, 4, 7], finite_only=True, value_classes=['small_int', 'frac', 'neg', 'zero'],
+                                        poly=(rng.random() < 0.6), dists=([] if rng.random() < 0.5 else None), grid_map=True)
                 calls = info['calls']
                 group = len(c.cases)
                 for k in range(n + 2):
